@@ -887,6 +887,8 @@ def stable_names(bodies,sigs,impls):
             suf='_'.join(san(re.sub(r'softposit\[\w+\]::|\w+::','',re.sub(r"&'?\{?\w*\}?\s*(mut\s+)?",'ref ',t)).replace(' ','')) for t in sg.params) if sg else ''
             suf=re.sub(r'_+','_',suf).strip('_') or 'v'
             cand=n+'.'+suf; i=1
+            if sum(1 for q in ps if sigs.get(q) and [raw_ty(t) for t in sigs[q].params]==[raw_ty(t) for t in sg.params])>1 if sg else False:
+                cand=cand+'_to_'+san(re.sub(r'softposit\[\w+\]::|\w+::','',sg.ret)).strip('_')
             while cand in used: i+=1; cand=f'{n}.{suf}{i}'
             used.add(cand); names[p]=cand
     return names
